@@ -38,7 +38,7 @@ def prog_factory(kind, which, K, start):
 
 def main(tier, seed):
     rep = E2Report(PROP, tier, seed)
-    Ks = [1, 3] if tier == "quick" else [1, 2, 3, 4, 5]
+    Ks = [1, 3] if tier == "quick" else [1, 2, 3, 4]
     rep.r.bounds = {"steps_K": Ks, "global_step": [0], "symbolic": "terminated/truncated of every step, rewards, epsilon rolls, learning_starts in [0,K+1]"}
     rep.r.assumptions = ["environment, networks, update routines, PRNG are recording nondeterministic stubs; observations/actions are unique concrete tags (the loops only move them)",
                          "the recording buffer stub stores exactly what add_sample receives; the buffer's own storage is C02/C04"]
